@@ -66,6 +66,23 @@ class En:
         return "%s%s" % (self.name or self.variant, self.fields)
 
 
+class Clo:
+    """a closure value: the definition it runs and what it captured"""
+    def __init__(self, name, captured):
+        self.name, self.captured = name, list(captured)
+
+    def __repr__(self):
+        return "Clo(%s)" % self.name.rsplit("::", 2)[-2:]
+
+
+class FnItem:
+    def __init__(self, name):
+        self.name = name
+
+    def __repr__(self):
+        return "FnItem(%s)" % self.name
+
+
 class State:
     def __init__(self, env=None, alias=None, quot=None, prod=None):
         self.env = dict(env or {})
@@ -154,6 +171,11 @@ class Interp:
                 return v
             if isinstance(v, int):
                 return IV(v)
+            if v is None and "fn" in o["c"]:
+                fnc = o["c"]["fn"]
+                name = (fnc.get("resolved") or fnc.get("def")) if isinstance(fnc, dict) else None
+                if name:
+                    return FnItem(mir.norm(name))       # a function item used as a value: `.map(Number::floor)`
             return TOP
         return TOP
 
@@ -454,7 +476,10 @@ class Interp:
             ll0, rl0 = mir.op_local(rv["l"]), mir.op_local(rv["r"])
             base_op = rv["op"].replace("WithOverflow", "").replace("Unchecked", "")
             r = None
-            if base_op == "Mul" and ll0 is not None and rl0 is not None and not dst["proj"]:
+            single = isinstance(a, IV) and isinstance(c, IV) and a.lo == a.hi and c.lo == c.hi     # single values: plain arithmetic is exact
+            if single:
+                pass
+            elif base_op == "Mul" and ll0 is not None and rl0 is not None and not dst["proj"]:
                 # (a / b) * b lies between 0 and a
                 for q, other in ((ll0, rl0), (rl0, ll0)):
                     if q in st.quot and st.root(other) == st.quot[q][1]:
@@ -464,7 +489,7 @@ class Interp:
                             if rv["op"].endswith("WithOverflow"):
                                 r = [r, False]
                             st.prod[dst["local"]] = (q, st.quot[q][0], st.quot[q][1])
-            if base_op in ("Eq", "Ne") and ll0 is not None and rl0 is not None:
+            if not single and base_op in ("Eq", "Ne") and ll0 is not None and rl0 is not None:
                 for pr, other in ((ll0, rl0), (rl0, ll0)):
                     if pr in st.prod and st.root(other) == st.prod[pr][1]:
                         r = B(("exact" if base_op == "Eq" else "inexact", st.prod[pr][0], st.prod[pr][2]))
@@ -516,10 +541,30 @@ class Interp:
                 self.aggregates.append((f.name, b, e))
                 self.agg_stacks.append(tuple(self.call_stack) + (f.name,))
                 self.write(st, dst, e)
+            elif kd["k"] == "closure":
+                self.write(st, dst, Clo(mir.norm(kd["def"]), vals))
             else:
                 self.write(st, dst, vals)
             return
         self.write(st, dst, TOP)
+
+    def _invoke(self, f, b, fnv, args, depth):
+        """call a closure / function item of the crate on abstract arguments"""
+        if isinstance(fnv, Clo):
+            g, cargs = self.fb.by_path(fnv.name), [list(fnv.captured)] + list(args)
+        else:
+            g, cargs = self.fb.by_path(fnv.name), list(args)
+        if g is None or depth >= self.max_depth + 1 or g.loop_blocks() or len(g.blocks) >= 200:
+            return TOP
+        self.call_stack.append(f.name)
+        try:
+            res = self._run_from(g, 0, State({i + 1: a for i, a in enumerate(cargs)}), depth + 1, {})
+        finally:
+            self.call_stack.pop()
+        vals = [r for r, s2 in res if not isinstance(r, str)]
+        if not vals:
+            return "diverge"
+        return vals[0] if len(vals) == 1 else ("__fork__", vals[:16])
 
     def _call(self, f, b, st, t, depth):
         c = callee(t) or ""
@@ -568,6 +613,48 @@ class Interp:
             return ("__fork__", [En(0, [TOP], "Continue"), En(1, [TOP], "Break")])
         if c.endswith("from_residual"):
             return En(1, [TOP], "Err")
+        # Result / Option combinators handed a closure or a function of the crate
+        end_ = c.rsplit("::", 1)[-1]
+        if end_ in ("map", "and_then") and ("result::Result" in c or "option::Option" in c) and len(args) == 2 \
+                and isinstance(args[1], (Clo, FnItem)):
+            is_res = "result::Result" in c
+            v = args[0]
+
+            def apply_(payload):
+                r_ = self._invoke(f, b, args[1], [payload], depth)
+                outs = r_[1] if isinstance(r_, tuple) and r_ and r_[0] == "__fork__" else [r_]
+                res_ = []
+                for o_ in outs:
+                    if o_ == "diverge":
+                        continue
+                    res_.append(o_ if end_ == "and_then" else En(0 if is_res else 1, [o_], "Ok" if is_res else "Some"))
+                return res_
+            good_variant = 0 if is_res else 1
+            if isinstance(v, En):
+                if v.variant == good_variant:
+                    outs = apply_(v.fields[0] if v.fields else TOP)
+                    return outs[0] if len(outs) == 1 else (("__fork__", outs[:16]) if outs else "diverge")
+                return v
+            outs = apply_(TOP) + [En(1, [TOP], "Err") if is_res else En(0, [], "None")]
+            return ("__fork__", outs[:16])
+        # a closure of the crate called through Fn / FnMut / FnOnce: its body, with the captured values as its first argument
+        if c.rsplit("::", 1)[-1] in ("call", "call_mut", "call_once") and "ops::Fn" in c and args and isinstance(args[0], Clo):
+            gc = self.fb.by_path(args[0].name)
+            if gc is not None and depth < self.max_depth + 1 and not gc.loop_blocks() and len(gc.blocks) < 200:
+                packed = args[1] if len(args) > 1 and isinstance(args[1], list) else []
+                cargs = [list(args[0].captured)] + list(packed)
+                self.call_stack.append(f.name)
+                try:
+                    res = self._run_from(gc, 0, State({i + 1: a for i, a in enumerate(cargs)}), depth + 1, {})
+                finally:
+                    self.call_stack.pop()
+                vals = [r for r, s2 in res if not isinstance(r, str)]
+                if not vals:
+                    return "diverge"
+                if len(vals) == 1:
+                    return vals[0]
+                return ("__fork__", vals[:16])
+            return TOP
         # inline local loop-free functions
         g = self.fb.by_path(c)
         if g is not None and depth < self.max_depth and not g.loop_blocks() and len(g.blocks) < 200:
